@@ -368,6 +368,10 @@ class SingleMarker(SingleMarkerLike[Union[BaseConstraint, VersionConstraint]]):
         parsed_constraint: BaseConstraint | VersionConstraint
         parser: Callable[[str], BaseConstraint | VersionConstraint]
         original_constraint_string = constraint_string = str(constraint)
+        if isinstance(constraint, Constraint) and constraint.operator == "==":
+            # str() of an equality omits the operator; written out, a value
+            # such as "internal" cannot be mistaken for the operator "in"
+            original_constraint_string = constraint_string = f"=={constraint.value}"
         self._swapped_name_value: bool = swapped_name_value
 
         if swapped_name_value:
